@@ -43,9 +43,10 @@ UNITS = [{
         'impl Map::get': {'props': G, 'trusted': True, 'requires': ['self.wf()'],
                           'ensures': [(G, 'index < self.cap() ==> (r matches Some(s) && bits_of(s) == self.state_bits(index as int))'),
                                       (G, 'index >= self.cap() ==> r is None')]},
-        'impl Map::new': {'props': G, 'trusted': True, 'requires': ['size % 4 == 0'],
+        'impl Map::new': {'props': G, 'pre_rewrites': ['assert_eq_unreached'], 'requires': ['size % 4 == 0'], 'body_start': 'proof { lemma_zero_bits(0); lemma_zero_bits(1); lemma_zero_bits(2); lemma_zero_bits(3); }',
                           'ensures': [(G, 'r.wf() && r.cap() == size && forall|i: int| 0 <= i < size ==> r.is_free(i)')]},
-        'impl Map::resize': {'props': G, 'trusted': True, 'requires': ['old(self).wf()', 'size % 4 == 0', 'size >= old(self).cap()'],
+        'impl Map::resize': {'props': G, 'pre_rewrites': ['assert_eq_unreached'],
+                             'body_end': 'proof { assert forall|i: int| 0 <= i < self.size implies self.state_bits(i) <= 2 by { if i < old(self).size { assert(self.map@[i / 4] == old(self).map@[i / 4]); assert(old(self).state_bits(i) <= 2); } else { assert(self.map@[i / 4] == 0u8); } } }', 'body_start': 'proof { lemma_zero_bits(0); lemma_zero_bits(1); lemma_zero_bits(2); lemma_zero_bits(3); }', 'requires': ['old(self).wf()', 'size % 4 == 0', 'size >= old(self).cap()'],
                              'ensures': [(G, 'final(self).wf() && final(self).cap() == size'),
                                          (G, 'forall|i: int| 0 <= i < old(self).cap() ==> final(self).state_bits(i) == old(self).state_bits(i)'),
                                          (G, 'forall|i: int| old(self).cap() <= i < size ==> final(self).is_free(i)')]},
